@@ -49,6 +49,18 @@ mod tests {
     for s in 0..5u8 {
       assert_eq!(match_terminal(&strictness_of(s), true, "x", goal.kind, &c), table(&goal, &cand, s));
     }
+    // an ERROR candidate is not a wildcard
+    let cand = Leaf { kind: ERROR_KIND, named: true, text: b'x' };
+    let mut cands = [cand; KMAX];
+    cands[0] = cand;
+    let mut src = [b' '; KMAX];
+    let d = flat_tree(&cands, 1, K_CALL, &mut src);
+    let g = mk_grep(as_str(&src, 1), d);
+    let c = g.root().child(0).unwrap();
+    for s in 0..5u8 {
+      assert_eq!(match_terminal(&strictness_of(s), true, "x", goal.kind, &c), table(&goal, &cand, s));
+      assert_ne!(table(&goal, &cand, s), 0);
+    }
   }
 }
 
@@ -62,7 +74,8 @@ mod proofs {
     let s: u8 = kani::any();
     kani::assume(s < 5);
     let goal = any_leaf(true);
-    let cand = any_leaf(false);
+    // the candidate may be an ERROR node too: ERROR is a wildcard on the *pattern* side only
+    let cand = any_leaf(true);
     let mut cands = [cand; KMAX];
     cands[0] = cand;
     let mut src = [b' '; KMAX];
@@ -71,6 +84,7 @@ mod proofs {
     let c = g.root().child(0).unwrap();
     let st = strictness_of(s);
     let gt = [goal.text];
+    kani::cover!(cand.kind == ERROR_KIND && goal.kind != ERROR_KIND);
     let got = match_terminal(&st, goal.named, as_str(&gt, 1), goal.kind, &c);
     let want = table(&goal, &cand, s);
     kani::cover!(want == 1);
